@@ -14,8 +14,16 @@ RULE = ("histories of add/update(iterable|mapping|kwargs) on a ThresholdCounter 
         "re-added after removal; distinct = distinct canonical history hash")
 ASSUMPTIONS = ["keys are hashable with lawful __eq__/__hash__ (tokens mapped to distinct Python objects)",
                "CPython dict preserves insertion order; sorted() is stable"]
-TRUSTED = ["Model/C20_Model.v is hand-written; tied to boltons.cacheutils.ThresholdCounter by the correspondence run",
+TRUSTED = ["Model/C20_Model.v is hand-written; tied to boltons.cacheutils.ThresholdCounter by the correspondence run and, for add(), "
+           "by the source translator harness/translators/{py2coq,c20_src}.py (Gen/C20_Src.v regenerated each run; C20_source_add proves it equal to the model)",
            "harness/c20.py serialiser"]
+
+def translators(repo):
+    import os, sys
+    sys.path.insert(0, os.path.join(os.path.dirname(os.path.abspath(__file__)), "translators"))
+    import c20_src
+    return c20_src.generate(repo)
+
 
 # tokens -> varied hashable python objects, pairwise != and identifier-safe names for kwargs
 KEYS = [0, "a", (1, 2), None, 3.5, "b", frozenset([7]), -1, "key", (), True and 17, "z", b"y", 99, "q", ("t", None)]
